@@ -385,6 +385,9 @@ func (w *iterWorld) Exec(p *Plan, st *RunStats) *Violation {
 			snap = nil
 			safely(o, op, func() { s.Step(op, o) })
 		}
+		if traceOn {
+			trace("op %d %s -> %016x", op.ID, op.N, hashStr(s.Obs()))
+		}
 		if o.Failed() {
 			break
 		}
